@@ -389,13 +389,26 @@ def layoutMemory (dst : Obj) (mem : Memory) : Except Err Obj :=
       if d.length > mem.size then .error .CompilerError          -- "Memory exceeds size"
       else .ok { dst with sections := st.secs, symbols := st.syms, images := dst.images ++ [img] }
 
-/-- `Linker.layout_sections` -/
+/-- the loop `for mem in layout.memories` of `Linker.layout_sections` -/
 def layoutSections : Obj → List Memory → Except Err Obj
   | dst, [] => .ok dst
   | dst, m :: rest =>
     match layoutMemory dst m with
     | .error e => .error e
     | .ok dst1 => layoutSections dst1 rest
+
+/-- the check that ends `layout_sections`: "A section is placed more than once" -/
+def checkPlacedOnce (d : Obj) : Except Err Unit :=
+  if (d.images.flatMap (·.sections)).Nodup then .ok () else .error .CompilerError
+
+/-- `Linker.layout_sections`: the loop over the memories, then the placed-once check -/
+def layoutChecked (dst : Obj) (mems : List Memory) : Except Err Obj :=
+  match layoutSections dst mems with
+  | .error e => .error e
+  | .ok d =>
+    match checkPlacedOnce d with
+    | .error e => .error e
+    | .ok _ => .ok d
 
 /-! ### symbols of the result -/
 
@@ -473,7 +486,7 @@ def linkT (inp : LinkInput) : Except Err (Obj × List ObjTrace) :=
         else
           let laid : Except Err Obj := match inp.layout with
             | none => .ok d2
-            | some l => layoutSections d2 l.memories
+            | some l => layoutChecked d2 l.memories
           match laid with
           | .error e => .error e
           | .ok d3 =>
